@@ -115,6 +115,18 @@ pub async fn backup(
 
     // Create the new band only after finding the basis band!
     let band = Band::create(archive).await?;
+    // A garbage collection may have started since the check above. It looks for new bands
+    // after taking its lock and before deleting anything, so between us one must notice the
+    // other, provided we look for its lock only now that our band is visible.
+    if archive
+        .transport()
+        .list_dir("")
+        .await?
+        .iter()
+        .any(|entry| entry.name == gc_lock::GC_LOCK)
+    {
+        return Err(Error::GarbageCollectionLockHeld);
+    }
     let index_writer = band.index_writer(monitor.clone());
     let block_dir = archive.block_dir().await?;
     let mut writer = BackupWriter {
